@@ -1,6 +1,7 @@
 import MirVerif.Lemmas.PPExpr
 import MirVerif.Lemmas.PPMacro
 import MirVerif.Lemmas.PPMacroFuel
+import MirVerif.Lemmas.PPNumber
 /-!
 # Property C09 — c2mir's preprocessor expands macros and evaluates `#if` as C11 requires
 
@@ -231,5 +232,21 @@ theorem spec_example_hash_hash :
                 mk "join" (some ["c", "d"]) [tk "in_between", tk "(", tk "c", tw "hash_hash", tw "d", tk ")"]]
       [tk "join", tk "(", tk "x", tk ",", tw "y", tk ")"]).1.map (·.sp) = ["\"x ## y\""] :=
   expandAll_of_fuel _ _ _ (by decide +kernel)
+
+/-! ### pp-number (6.4.8): what the lexer has to take as one token -/
+
+/-- the recogniser used by the specification decides the grammar of 6.4.8 -/
+theorem ppnumber_recogniser_is_grammar (w : List Char) : isPPNumberL w = true ↔ PPNum w :=
+  isPPNumberL_iff w
+
+/-- maximal munch: the prefixes of `cs` that are pp-numbers are exactly those of length
+`ppNumberMin cs .. ppNumberLen cs`; the lexer takes `ppNumberLen cs` characters -/
+theorem ppnumber_maximal_munch (cs : List Char) (n : Nat) (hn : n ≤ cs.length) :
+    PPNum (cs.take n) ↔ (ppNumberMin cs ≤ n ∧ n ≤ ppNumberLen cs) := by
+  rw [← isPPNumberL_iff]; exact ppNumberLen_spec cs n hn
+
+/-- `0xe+x` is one preprocessing token: `e` followed by a sign continues a pp-number also after `0x` -/
+example : PPNum "0xe+x".toList ∧ ppNumberLen "0xe+x;".toList = 5 ∧ ppNumberLen "0xf+x;".toList = 3 := by
+  refine ⟨(isPPNumberL_iff _).mp (by decide), by decide, by decide⟩
 
 end MirVerif.PP
